@@ -1,4 +1,5 @@
 import LolHtml.Lemmas.InvStream
+import LolHtml.Lemmas.TokParse
 import LolHtml.Lemmas.InvLinear
 import LolHtml.Thm.C01
 import LolHtml.Gen.Syntax
@@ -16,7 +17,10 @@ not itself return a panic-class error, every sequence of `write`s followed by `e
 Side-conditions on the table (`Lemmas/InvWf.lean`), each with a `…Witness` variant:
 `TargetsOK`, `Exhaustive`, `EnterQuiet`, `ArmsOK`, `ReconsumeRanked … (computeRanks …)`.
 
-* `C15_no_panic_partial`   no call returns a panic/internal-class error except possibly at a site of `U1`
+* `C15_no_panic`           (needs in addition the token-part certificate `checkCert t (computeCert t)`) no call
+                           returns a panic/internal-class error except possibly at one of the TWO sites of `U2`,
+                           both of which need scanner / lexer agreement (C06).
+* `C15_no_panic_partial`   (without the certificate) no call returns a panic/internal-class error except possibly at a site of `U1`
                            (token-part ranges, "token exists" assertions, `RequestLexeme` callbacks):
                            the cursor, raw-range, flush, buffer-shift, state-lookup, exhaustiveness and
                            fuel sites are unreachable.
@@ -165,5 +169,83 @@ example : (run (genWorld 0) (Rewriter.new (genWorld 0) () {}) nastyChunks).2 = [
 example : runLoopSteps (genWorld 31).env [60,97,32,98,61,99,62,120] 1000
     ((Parser.new Gen.Syntax.table (Disp.new (constCtl 31) () 0) .lex false).machine false) = 9 := by
   decide +kernel
+
+
+/-! ### token-part ranges: with the certificate, only the two sites of `U2` remain -/
+
+set_option maxRecDepth 100000 in
+/-- **C15_cert_gen.** The token-part certificate computed from the current table passes the checker. -/
+theorem C15_cert_gen : checkCert Gen.Syntax.table (computeCert Gen.Syntax.table) = true := by decide +kernel
+
+set_option maxRecDepth 100000 in
+theorem C15_cert_gen_witness : checkCertWitness Gen.Syntax.table (computeCert Gen.Syntax.table) = [] := by
+  decide +kernel
+
+theorem writeAll_post2 {w : World γ} {cert : Cert} (hc : CtlClean w.ctl) (hw : Wf w.tbl)
+    (hchk : checkCert w.tbl cert = true) (chunks : List Bytes) (r : Rewriter γ) (hr : RInv2 w cert r) :
+    (∀ x ∈ (writeAll w r chunks).2, Model.CallOK U2 x) ∧ RInv2 w cert (writeAll w r chunks).1 := by
+  induction chunks generalizing r with
+  | nil => exact ⟨fun x hx => (by cases hx), hr⟩
+  | cons c cs ih =>
+    simp only [writeAll]
+    obtain ⟨h1, h2⟩ := Rewriter.write_post2 hc hw hchk r c hr
+    obtain ⟨h3, h4⟩ := ih _ h2
+    refine ⟨fun x hx => ?_, h4⟩
+    simp only [List.mem_cons] at hx
+    rcases hx with rfl | hx
+    · exact h1
+    · exact h3 x hx
+
+/-- **C15_no_panic.** For every table satisfying `WfTable` and whose computed token-part certificate
+passes `checkCert`, every tag configuration, every controller that never returns a panic/internal-class
+error itself, every settings record and every list of writes followed by `end`: no call returns
+`.err (.panic s)` or `.err (.internal s)` unless `s` is one of the two sites of `U2`
+(`"Tag should be a start tag at this point"`, `"RequestLexeme callback: unexpected tag type / empty ns
+stack"`), which are reachable only if the lexer, restarted by the tag scanner at a tag start, produces
+a first tag of another kind than the scanner saw (scanner / lexer agreement, C06). -/
+theorem C15_no_panic (w : World γ) (hwf : WfTable w.tbl = true)
+    (hcert : checkCert w.tbl (computeCert w.tbl) = true) (hc : CtlClean w.ctl)
+    (g : γ) (cfg : Settings) (chunks : List Bytes) :
+    ∀ x ∈ (run w (Rewriter.new w g cfg) chunks).2, Model.CallOK U2 x := by
+  have hw := WfTable.wf hwf
+  have h0 : RInv2 w (computeCert w.tbl) (Rewriter.new w g cfg) := Or.inr (Stream.new_SInv2 hw hcert g cfg)
+  obtain ⟨h1, h2⟩ := writeAll_post2 hc hw hcert chunks _ h0
+  intro x hx
+  simp only [run, List.mem_append, List.mem_singleton] at hx
+  rcases hx with hx | rfl
+  · exact h1 x hx
+  · exact Rewriter.end_post2 hc hw hcert _ h2
+
+/-- **C15_signals.** The same at the level of the parsing loop (where `ActionError::Internal` is still
+visible — `Parser.parseLoop` maps it to a handler error, as the release build does): from the
+invariants, the signal a run of the parsing loop ends with is never a panic or an internal error
+except at a `U2` site; in particular never "out of fuel". -/
+theorem C15_signals (w : World γ) (hwf : WfTable w.tbl = true)
+    (hcert : checkCert w.tbl (computeCert w.tbl) = true) (hc : CtlClean w.ctl) (inp : Bytes) (lo : Nat)
+    (m : M (Disp γ)) (hm : MInvB w.tbl inp.length m.x.sink.rcs lo m) (htb : TokB w.tbl (computeCert w.tbl) m)
+    (e : Err) (he : (runLoop w.env inp (defaultFuel inp) m).2 = .err e) : ErrOK U2 e := by
+  have hw := WfTable.wf hwf
+  have h1 := runLoop_post (env := w.env) (W := fun d : Disp γ => d.rcs) (dispOps_safe hc) hw (defaultFuel inp) m hm
+    (mu_lt_defaultFuel _ hw _)
+  have h2 := runLoop_tok (env := w.env) (W := fun d : Disp γ => d.rcs) hcert (dispOps_safe hc) (dispOps_safe2 hc) hw
+    (defaultFuel inp) m hm htb (mu_lt_defaultFuel _ hw _)
+  rw [he] at h1
+  unfold LoopTok at h2
+  rw [he] at h2
+  exact ErrOK_U2 h1 h2.2
+
+/-- C15 for the generated table, any constant capture flags. -/
+theorem C15_no_panic_gen (f : Nat) (cfg : Settings) (chunks : List Bytes) :
+    ∀ x ∈ (run (genWorld f) (Rewriter.new (genWorld f) () cfg) chunks).2, Model.CallOK U2 x :=
+  C15_no_panic (genWorld f) C15_gen C15_cert_gen (constCtl_clean f) () cfg chunks
+
+/-- the sites additionally proved unreachable are indeed excluded by `U2` -/
+theorem C15_covered_sites2 :
+    ¬ U2 "leave_ns: namespace stack empty" ∧ ¬ U2 "Tag token should exist at this point" ∧
+    ¬ U2 "Tag should exist at this point" ∧ ¬ U2 "debug_assert: Tag should exist at this point" ∧
+    ¬ U2 "debug_assert: End tag should exist at this point" ∧ ¬ U2 "Tag start should be set at this point" ∧
+    ¬ U2 "Bytes::slice out of range in RequestLexeme callback" ∧ ¬ U2 "Bytes::slice out of range in emit_tag_hint" ∧
+    ¬ U2 "Bytes::slice out of range in to_token" ∧ ¬ U2 "Bytes::slice out of range (tag name)" := by
+  simp [U2]
 
 end LolHtml.Thm.C15
